@@ -138,20 +138,27 @@ def handle : List Sexp → Option Sexp
       let nodes ← nodes.mapM node?
       if !listOk [] nodes then pure (.atom "unmodelled") else
       let evs := renderList [] nodes
-      if inCacheDefectZone m strip evs then pure (.atom "unmodelled") else
-      pure (.str (serialize m strip evs))
+      pure (.str (serializeC m strip evs))
   -- serialization of a given START/END/TEXT stream
-  | [.atom "ser", m, strip, .list evs] => do
+  | [.atom "emit", m, strip, .list evs] => do
       let m ← method? m; let strip ← strip.toBool?
       let evs ← evs.mapM ev?
-      if inCacheDefectZone m strip evs then pure (.atom "unmodelled") else
-      pure (.str (serialize m strip evs))
+      pure (.str (serializeC m strip evs))
+  -- the same three ways: the loop with its event cache, the loop without, and escaping decided by the
+  -- enclosing elements (`cache_unobservable`, `escaping_by_enclosing_elements`); `N` outside `rawLeafGo`
+  | [.atom "emit3", m, strip, .list evs] => do
+      let m ← method? m; let strip ← strip.toBool?
+      let evs ← evs.mapM ev?
+      let toks := emptyTags evs
+      let toks := if strip then wsFilter (preserveElems m) (noescapeElems m) 0 false [] toks else toks
+      pure (.list [.str (serToksC m [] false toks), .str (serToks m false toks),
+                   if rawLeafGo m [] toks then .str (serEncl m [] toks) else .atom "N"])
   -- the specification side: what re-reading must give, when the case is inside the hypotheses of
   -- `structure_preserved`
   | [.atom "expect", m, strip, .list nodes] => do
       let m ← method? m; let strip ← strip.toBool?
       let nodes ← nodes.mapM node?
-      if (if strip then nodesOkB m nodes else nodesOkM m nodes) && listOk [] nodes then
+      if (if strip then nodesOkW m nodes else nodesOkM m nodes) && listOk [] nodes then
         let evs := expectedList [] nodes
         pure (.list ((if strip then coalesceStrip m evs else coalesce evs).map evOut))
       else pure (.atom "outside")
